@@ -314,53 +314,60 @@ store_harness!(c09_store_veto_insert, OP_INSERT, 2, Some(false), false);
 store_harness!(c09_store_veto_insert_em, OP_INSERT, 2, Some(false), true);
 
 // ------------------------------------------------------------------------------------------------
-// C04 / C05: the sweep itself (`ShardedMap::try_cleanup`) from an arbitrary state, including a
-// STALE listing (a key filed under a bucket although its current entry has another deadline or
-// no TTL at all - left behind by clear(), which does not empty the expiry index)
+// C04 / C05 / C11: the sweep itself (`ShardedMap::try_cleanup`), for an ARBITRARY listing handed out
+// by the expiry index (proper or stale - e.g. left behind by clear(), which does not empty the
+// index - due or not): the sweep must only remove entries whose own TTL has elapsed.
 // ------------------------------------------------------------------------------------------------
 #[cfg(feature = "sync")]
-fn store_cleanup() {
+fn store_sweep() {
     use crate::policy::verif_harness::psync::mk_policy;
     use crate::policy::verif_harness::{any_tinylfu, slfu_from, COST_MAX};
     use crate::verif_env::mrec;
     let now = clock::set_nd(1000, th::SECS_MAX);
     let e = any_ent(now, 2, 4);
     let k = e.key;
-    // a listing of k under an arbitrary bucket (equal to its real bucket or stale)
-    let stale_bucket = nd::any_i64_in(now.as_secs() as i64 - 6, now.as_secs() as i64 + 6);
-    let listed_properly = !e.exp.is_zero() && nd::any_bool();
-    let stale = if nd::any_bool() { Some((stale_bucket, k, e.conflict)) } else { None };
-    let s = store_from(if listed_properly { Some(e) } else { None }, None, stale, NdValidator::new(Some(true)));
-    if !listed_properly {
-        // resident, but (apart from the optional stale listing) not filed
-        s.shards[(k as usize) % NUM_OF_SHARDS].write().insert(
-            k,
-            StoreItem { key: k, conflict: e.conflict, value: SharedValue::new(e.val), expiration: e.exp },
-        );
-    }
+    let resident = nd::any_bool();
+    // what the expiry index hands out: nothing, or one listing with an arbitrary key and conflict
+    let hand_out = nd::any_bool();
+    let lk = nd::any_u64();
+    let lc = nd::any_u64();
+    // under Kani the index is replaced by the stand-in; natively the listing is really filed, under
+    // a bucket that is due at every later instant
+    #[cfg(kani)]
+    let listing = None;
+    #[cfg(not(kani))]
+    let listing = if hand_out { Some((now.as_secs() as i64, lk, lc)) } else { None };
+    let s = store_from_opt(if resident { Some(e) } else { None }, None, listing, NdValidator::new(Some(true)), false);
     let charge = nd::any_i64_in(0, COST_MAX);
-    let (p, _w) = mk_policy(any_tinylfu(1, 6), slfu_from([Some((k, charge)), None, None], COST_MAX), Arc::new(mrec::make(false)));
+    let (p, _w) = mk_policy(any_tinylfu(1, 6), slfu_from([if resident { Some((k, charge)) } else { None }, None, None], COST_MAX), Arc::new(mrec::make(false)));
     let p = Arc::new(p);
-    let t = clock::advance_nd(8);
+    #[cfg(kani)]
+    crate::ttl::verif_harness::emrec::set(hand_out, lk, lc);
+    let t = clock::advance_nd(6);
     let out = s.try_cleanup(p.clone());
     vassert!(out.is_ok(), "cleanup does not fail");
     let out = out.unwrap();
-    let removed = raw(&s, k).is_none();
-    let elapsed = !e.exp.is_zero() && t >= deadline(&e.exp);
-    vassert!(!removed || elapsed, "cleanup never removes an entry whose TTL has not elapsed, and never one without TTL, whatever is filed in the expiry index");
-    vassert!(removed == (out.len() == 1), "every removed entry is reported exactly once");
-    if removed {
-        vassert!(out[0].val == Some(e.val) && out[0].index == k && out[0].cost == charge, "a reclaimed entry is reported with its value and charged cost");
-        vassert!(!p.contains(&k), "a reclaimed entry is no longer charged");
+    if resident {
+        let removed = raw(&s, k).is_none();
+        let elapsed = !e.exp.is_zero() && t >= deadline(&e.exp);
+        vassert!(!removed || elapsed, "cleanup never removes an entry whose TTL has not elapsed, and never one without TTL, whatever the expiry index hands out");
+        vassert!(removed == (out.len() == 1), "every removed entry is reported exactly once");
+        if removed {
+            vassert!(out[0].val == Some(e.val) && out[0].index == k && out[0].cost == charge, "a reclaimed entry is reported with its value and charged cost");
+            vassert!(!p.contains(&k), "a reclaimed entry is no longer charged");
+        } else {
+            vassert!(p.contains(&k), "an entry that stays resident stays charged");
+        }
+        if hand_out && lk == k && (lc == 0 || lc == e.conflict) && elapsed {
+            vassert!(removed, "an elapsed entry handed out by the expiry index is reclaimed");
+        }
+        vcover!(removed, "entry reclaimed");
+        vcover!(!removed && hand_out && lk == k && e.exp.is_zero(), "a listing of an entry without TTL is handed out");
+        vcover!(!removed && hand_out && lk == k && !e.exp.is_zero(), "a listing of an entry whose TTL has not elapsed is handed out");
     } else {
-        vassert!(p.contains(&k), "an entry that stays resident stays charged");
+        vassert!(out.len() == 0, "nothing is reported for keys that are not resident");
+        vcover!(hand_out, "stale listing of an absent key");
     }
-    if listed_properly && t >= deadline(&e.exp) + Duration::from_secs(1) {
-        vassert!(removed, "a filed entry whose TTL elapsed more than one bucket width ago is reclaimed by the next pass");
-    }
-    vcover!(removed, "entry reclaimed");
-    vcover!(!removed && stale.is_some() && e.exp.is_zero() && stale_bucket <= t.as_secs() as i64, "stale listing of an entry without TTL is due");
-    vcover!(!removed && elapsed, "elapsed but its bucket is not due yet");
     std::mem::forget(out);
     std::mem::forget(s);
 }
@@ -376,9 +383,10 @@ harness! {
      kani::stub(parking_lot::RawRwLock::unlock_shared_slow, stubs::rw_unlock_shared_slow),
      kani::stub(parking_lot::RawRwLock::unlock_exclusive_slow, stubs::rw_unlock_exclusive_slow),
      kani::stub(crate::metrics::Metrics::add, crate::verif_env::mrec::add),
-     kani::stub(crate::metrics::Metrics::is_op, crate::verif_env::mrec::is_op)]
-    fn c05_store_cleanup() {
-        store_cleanup();
+     kani::stub(crate::metrics::Metrics::is_op, crate::verif_env::mrec::is_op),
+     kani::stub(crate::ttl::ExpirationMap::try_cleanup, crate::ttl::verif_harness::emrec::try_cleanup)]
+    fn c05_store_sweep() {
+        store_sweep();
     }
 }
 
